@@ -87,6 +87,9 @@ def import_graph(repo=None):
     return g
 
 def cone_files(pid, repo=None):
+    if pid in ('C16', 'C17'):
+        # "every public function": the whole package
+        return set(import_graph(repo).keys())
     anchors = []
     for l in open(os.path.join(VERIF, 'properties.jsonl')):
         d = json.loads(l)
